@@ -114,6 +114,9 @@ def gen_fmt(rng, fields, has_enum, allow_hidden=True):
 
 def generate(rng, tier):
     enums = [gen_enum(rng)]
+    if rng.random() < 0.12:
+        # the application's own enum type: columns without a modifier show names only
+        enums[0]["user_default"] = "name"
     k = rng.randint(2, 5)
     fields = rng.sample(FIELDS, k)
     wide = rng.random() < 0.04
@@ -241,6 +244,9 @@ def generate(rng, tier):
                 op["fmt"] = gen_fmt(rng, fields, has_enum)
             elif which == "limits":
                 op["fmt"] = f";{rng.randint(0, 4)}:{rng.randint(0, 4)}"
+                if rng.random() < 0.4:
+                    # the same through the format object of the table: table.fmt.set_limits((n, m))
+                    op["via_fmt_obj"] = True
             ops.append(op)
         elif r < 0.89:
             ops.append({"op": "save_fmt"})
@@ -684,6 +690,10 @@ def execute(trace, rng):
                         sut("table.fmt = <format string reported earlier by this table>", t.set_fmt, s)
                     elif which == "star":
                         sut("table.fmt = '*'", t.set_fmt, "*")
+                    elif which == "limits" and op.get("via_fmt_obj"):
+                        lim = tuple(int(x) for x in op["fmt"].lstrip(";").split(":"))
+                        sut("table.fmt.set_limits((n, m))", t.fmt.set_limits, lim)
+                        w.stats["limits_via_fmt_obj"] = w.stats.get("limits_via_fmt_obj", 0) + 1
                     else:
                         try:
                             t.set_fmt(op["fmt"])
